@@ -367,6 +367,9 @@ def run(tier: str, seed: int) -> int:
             pl.append(twin)
             pl.append([FR_MODULE if p_ == FR else p_ for p_ in twin])
         c["plugin_lists"] = pl
+        if i % 5 == 3:
+            # plugins meet the extra client methods and modules of the operation builder
+            c["cfg"] = dict(c["cfg"], enable_custom_operations=True)
         if i % 3 == 1:
             cw.with_mixins(c, 1)  # @mixin on fields and fragment definitions: the codegen-only directive must not reach any plugin's copy of the operation strings
         cases.append(c)
